@@ -1,6 +1,6 @@
 module verifharness
 
-go 1.22.0
+go 1.23.0
 
 require (
 	github.com/anishathalye/porcupine v1.3.0
